@@ -281,7 +281,8 @@ static DATE_ALIKE_REGEX: LazyLock<Regex> = LazyLock::new(|| {
 });
 
 fn looks_like_expression(s: &str) -> bool {
-    !s.split(|c: char| !c.is_ascii_alphanumeric()).any(|s| {
+    // (column and function names may contain underscores: `line_count+1`)
+    !s.split(|c: char| !c.is_ascii_alphanumeric() && c != '_').any(|s| {
         Field::from_str(s).is_err() && Function::from_str(s).is_err() && s.parse::<i64>().is_err()
     })
 }
